@@ -4,6 +4,7 @@ the property oracle, prints `<id> <verdict>` per line.  Pure function of its inp
 -/
 import DastardV.Proto
 import DastardV.Model.C09
+import DastardV.Model.PipeJudge
 import DastardV.Model.C12
 import DastardV.Model.C14
 import DastardV.Model.C18
@@ -11,6 +12,7 @@ open DastardV
 
 def dispatch (prop : String) (rest : List String) : Verdict :=
   match prop with
+  | "C01" => Pipe.runLineC01 rest
   | "C09" => C09.runLine rest
   | "C12" => C12.runLine rest
   | "C14" => C14.runLine rest
